@@ -13,7 +13,7 @@ import numpy as np
 
 MATRIX_KINDS = [
     "generic_int", "generic_eighths", "graded", "dup_rows", "zero_rows", "zero_cols",
-    "all_zero", "ties", "low_rank", "tiny",
+    "all_zero", "ties", "low_rank", "tiny", "faint_mode",
 ]
 
 
@@ -69,6 +69,14 @@ def gen_matrix(rng, shape=None, kind=None, max_n=10, max_m=8):
         U = [[ri(-3, 3) for _ in range(r)] for _ in range(n)]
         V = [[ri(-3, 3) for _ in range(m)] for _ in range(r)]
         B = [[sum(U[i][l] * V[l][c] for l in range(r)) for c in range(m)] for i in range(n)]
+    elif kind == "faint_mode":
+        # one mode (column) 2^-28 … 2^-34 times fainter than the others: invisible in the initial norms, but it decides the last of the
+        # first min(n, m) picks – and a rotation of the modes spreads it over all columns
+        B = [[ri(-5, 5) for _ in range(m)] for _ in range(n)]
+        c = ri(0, m - 1)
+        f = 2.0 ** -rng.choice([28, 30, 34])
+        for i in range(n):
+            B[i][c] = ri(-5, 5) * f
     elif kind == "tiny":
         B = [[ri(-1, 1) for _ in range(m)] for _ in range(n)]
     else:
